@@ -16,3 +16,4 @@ import TLX.Props.Translated.Checksum
 import TLX.Props.Translated.Suites
 import TLX.Props.Translated.QuicDissect2
 import TLX.Props.Translated.TlsSess2
+import TLX.Props.Translated.Reasm2
